@@ -10,3 +10,6 @@ import Dm.Props.C16
 #print axioms Dm.Props.C16.binary_or_swallows_comma
 #print axioms Dm.Props.C16.cast_to_generic_type_is_split
 #print axioms Dm.Props.C16.lt_and_gt_global_path_is_one_argument
+#print axioms Dm.Props.C16.exprStep_plain
+#print axioms Dm.Props.C16.isPunct_lt_not_gt
+#print axioms Dm.Props.C16.balancedLoop_bal
